@@ -58,9 +58,12 @@ def run(ctx):
     for k, cp in enumerate(cps):
         tp = os.path.join(ctx.scratch, "trace%02d.ndjson" % k)
         traces.append(tp)
-        argvs.append([drv, "--cases", cp, "--out", tp, "--random", str(60 if quick else 200), "--salt", str(k)])
+        argvs.append([drv, "--cases", cp, "--out", tp, "--random", str(60 if quick else 200), "--salt", str(k),
+                      # concurrency family in four shards: 8 goroutines with different token decimals
+                      "--conc", str((12 if quick else 60) if k < 4 else 0)])
     outs = ctx.run_parallel(argvs)
-    nev = sum(int(o.split("events=")[1].split()[0]) for o in outs)
+    nev = sum(int(o.split(" events=")[1].split()[0]) for o in outs)
+    nconc = sum(int(o.split("conc_conversions=")[1].split()[0]) for o in outs)
     # 3. every event judged against the reference recomputed in TLA+
     events, tags = judge_traces(ctx, "DecimalTrace", traces, timeout=1500)
 
@@ -102,6 +105,7 @@ def run(ctx):
     require(id18 > 20 and frac18 > 20 and int78 > 20 and neg > 20 and tenth > 100,
             "boundary classes missing (dec=18: %d, 18 fraction digits: %d, 78 integer digits: %d, negative: %d, non-dyadic: %d)"
             % (id18, frac18, int78, neg, tenth), ctx=ctx)
+    require(nconc > 200000, "concurrency family hardly ran (%d conversions)" % nconc, ctx=ctx)
     require(events == nev, "events judged (%d) != events recorded (%d)" % (events, nev), ctx=ctx)
     coverage = {
         "evaluations": events,
@@ -118,6 +122,7 @@ def run(ctx):
         "traces_validated_against_impl": len(traces),
         "events_validated": events,
         "events_by_kind": by_event,
+        "concurrent_conversions": nconc,
         "events_by_source": srcs,
         "tlc_cases": kinds,
         "failed_judgements": tags,
